@@ -6,9 +6,11 @@ from harness import nswire
 from harness.common import rat
 
 PID = 'C01'
-MODULES = ['NoteSeqVerif.Props.C01']
+MODULES = ['NoteSeqVerif.Props.C01', 'NoteSeqVerif.Props.C01_float']
 EXE = 'drv_c01'
-THEOREMS = [
+_P = 'NoteSeqVerif.Props.C01'
+_F = 'NoteSeqVerif.Props.C01_float'
+THEOREMS = [(_P, t) for t in [
     'NSV.C01.qstep_exact_nearest', 'NSV.C01.qstep_exact_tie_up', 'NSV.C01.qstep_exact_unique',
     'NSV.C01.qstep_mono', 'NSV.C01.qstep_stretch_invariant',
     'NSV.C01.quantize_min_len', 'NSV.C01.quantize_total_covers', 'NSV.C01.quantize_nonneg',
@@ -17,7 +19,11 @@ THEOREMS = [
     'NSV.C01.isPow2_iff', 'NSV.C01.quantizeRel_rejects_tempo_change', 'NSV.C01.quantizeRel_accepts',
     'NSV.C01.quantizeRel_frame', 'NSV.C01.checkTimeSigs_perm', 'NSV.C01.checkTempos_perm',
     'NSV.C01.qNotes_spec', 'NSV.C01.quantizeNotes_spec', 'NSV.C01.checkTimeSigs_spec', 'NSV.C01.checkTempos_spec',
-]
+]] + [(_F, t) for t in [
+    'NSV.C01.qstep_float_nearest', 'NSV.C01.qstep_float_within_one', 'NSV.C01.qstep_float_mono',
+    'NSV.C01.quantize_min_len_float', 'NSV.C01.sps_float_nonneg',
+    'NSV.rounding_rne53', 'NSV.qstep_float', 'NSV.qstep_near',
+]]
 
 
 def generate(chk):
